@@ -26,10 +26,12 @@ sentinel, which the code cannot tell from an unpinned line) -/
 def GoodLine {V} (cfg : Cfg) (ver : Ver V) (raw : Str) : Prop :=
   ∀ n v, parseLine cfg raw = some (n, some v) → v = UNP ∨ ∃ a, ver.parse v = some a
 
-/-- characters of a plain distribution name (PEP 508 identifier) -/
-def nameChar (c : Char) : Bool := c.isAlphanum || c == '-' || c == '_' || c == '.'
-
-def plainName (n : Str) : Bool := !n.isEmpty && n.all nameChar
+/-- a plain distribution name (PEP 508 identifier): letters, digits, `-`, `_`, `.`, beginning and ending with a
+letter or digit.  (Until round 4 the spec accepted any non-empty string over these characters, which made a pip option
+such as `--pre` a package name.) -/
+def plainName (n : Str) : Bool :=
+  !n.isEmpty && n.all (fun c => c.isAlphanum || c == '-' || c == '_' || c == '.') &&
+  (n.head?.map Char.isAlphanum).getD false && (n.getLast?.map Char.isAlphanum).getD false
 
 /-- what marks the version-specifier operators other than `==` (`>= <= > <`, `~=`, `!=` and the `,` that joins
 clauses): a line that contains one of these substrings is not of the supported `name` / `name==version` form.  A
@@ -39,7 +41,7 @@ def SPEC_PATS : List Str := [[','], ['>'], ['<'], ['~', '='], ['!', '=']]
 /-- meaning of one line: `(package, none)` unpinned, `(package, some v)` a valid pin, `none` ignored.  The package
 is identified by its normalised name (PEP 503: case and the `-`/`_`/`.` spelling do not matter) -/
 def specLine {V} (ver : Ver V) (raw : Str) : Option (Str × Option Str) :=
-  match parseLineWith SPEC_PATS raw with
+  match parseLineWith SPEC_PATS false raw with
   | some (n, none) => if plainName n then some (normName n, none) else none
   | some (n, some v) => if plainName n && (ver.parse v).isSome then some (normName n, some v) else none
   | none => none
@@ -83,22 +85,26 @@ def specTable {V} (ver : Ver V) (raws : List Str) : List (Str × Str) :=
   let ms := raws.filterMap (specLine ver)
   (specNames ms).filterMap (fun p => (specSelect ver ms p).map (fun v => (p, v)))
 
+/-- two version strings name the same version: the same text, or both are versions and equal as versions (a string
+that is not a version only equals itself) -/
+def SameV {V} (ver : Ver V) (a b : Str) : Prop :=
+  a = b ∨ ∃ x y, ver.parse a = some x ∧ ver.parse b = some y ∧ veq ver x y = true
+
 /-- reference install rule for one package: install iff it is not there, or pyscript put the present version
 there and a *different* version is pinned now -/
 def ShouldInstall {V} (ver : Ver V) (recd : Option Str) (e : Entry) : Prop :=
   truthy e.installed = none ∨
-  ∃ inst r a b w, truthy e.installed = some inst ∧ recd = some r ∧ e.version ≠ UNP ∧
-    ver.parse r = some a ∧ ver.parse inst = some b ∧ ver.parse e.version = some w ∧
-    veq ver a b = true ∧ veq ver w b = false
+  ∃ inst r, truthy e.installed = some inst ∧ recd = some r ∧ e.version ≠ UNP ∧
+    SameV ver r inst ∧ ¬ SameV ver e.version inst
 
 /-- reference rule for pyscript's record of package `m` after a run (before unpinned entries are resolved to the
 version found installed): the pin just handed to the installer; nothing if the package turned out to be managed
 externally; otherwise what was recorded before (in particular for packages no file mentions any more) -/
-def recordRule {V} (ver : Ver V) (t : Table) (r : Rec) (m : Str) : Option Str :=
+def recordRule {V} (cfg : Cfg) (ver : Ver V) (t : Table) (r : Rec) (m : Str) : Option Str :=
   match find t m with
   | none => rget r m
   | some e =>
-    match decidePkg ver (rget r m) e with
+    match decidePkg cfg ver (rget r m) e with
     | .install => some e.version
     | .pop => none
     | _ => rget r m
@@ -111,8 +117,7 @@ def resolveRule (site' : Str → Option Str) (m : Str) : Option Str → Option S
 /-- the package is recorded by pyscript but the installed version is not the recorded one -/
 def ExternallyChanged {V} (ver : Ver V) (recd : Option Str) (e : Entry) : Prop :=
   ∃ inst r, truthy e.installed = some inst ∧ recd = some r ∧
-    ((e.version = UNP ∧ r ≠ inst) ∨
-     (e.version ≠ UNP ∧ ∃ a b, ver.parse r = some a ∧ ver.parse inst = some b ∧ veq ver a b = false))
+    ((e.version = UNP ∧ r ≠ inst) ∨ (e.version ≠ UNP ∧ ¬ SameV ver r inst))
 
 /-- what the installer is assumed to have achieved when it returns normally: every pinned requirement is
 installed in (a version equal to) the pinned version, every unpinned one is installed in some version, and
